@@ -132,6 +132,11 @@ func DefaultCase(r *rand.Rand, name string, o DefaultOpts) *Case {
 		sS.Fields = append(sS.Fields, F("MV", Map(Basic("string"), Basic("int"))))
 		tS.Fields = append(tS.Fields, F("MV", Map(Basic("string"), Ptr(Basic("int")))))
 	}
+	fnMapped := r.Intn(2) == 0
+	if fnMapped {
+		// a target field computed from a source field by a function
+		tS.Fields = append(tS.Fields, F("FM", Basic("string")))
+	}
 	S := decl("S", sS)
 	T := decl("T", tS)
 	srcPtr := r.Intn(2) == 0
@@ -227,6 +232,11 @@ func DefaultCase(r *rand.Rand, name string, o DefaultOpts) *Case {
 	fmt.Fprintf(&fsb, "package conv\n\nimport \"%s/ty\"\n\nvar seventySeven = 77\n\nfunc stampPtr(s *ty.S) int {\n\tif s == nil {\n\t\treturn 9000\n\t}\n\treturn 9001 + s.A%%7\n}\n\nvar _ = stampPtr\n\n%sfunc NewT(%s) %s {\n\t%s\n}\n", c.Root, doc, strings.Join(fparams, ", "), ret, body)
 	conv.Files["ctor.go"] = fsb.String()
 	methLines = append([]string{"default NewT", "ignore Ign Ign2"}, methLines...)
+	if fnMapped {
+		methLines = append(methLines, "map A FM | FmtA")
+		fsb.WriteString("\nfunc FmtA(v int) string { return \"fm:\" + string(rune('a'+(v%26+26)%26)) }\n")
+		conv.Files["ctor.go"] = strings.Replace(fsb.String(), "Ign: \"keep\"", "FM: \"fm-default\", Ign: \"keep\"", 1)
+	}
 	params := []Param{{Name: "source", T: sT, Role: "source"}}
 	mroles := []string{"source"}
 	if fnCtx {
@@ -243,7 +253,14 @@ func DefaultCase(r *rand.Rand, name string, o DefaultOpts) *Case {
 	}
 	cv.Methods = append(cv.Methods, &Method{Name: "M", Params: params, Result: tT, HasErr: fnErr, Lines: methLines,
 		Spec: &vref.MethodSpec{Name: "M", Roles: mroles, Flags: flags, HasErr: fnErr, Default: "fn:NewT",
-			Fields: map[string]vref.FieldSpec{"Ign": {Ignore: true}, "Ign2": {Ignore: true}}}})
+			Fields: defaultFields(fnMapped)}})
+	if fnMapped {
+		if o.Format == "variables" {
+			cv.Callables["fn:FmtA"] = "gen.FmtA"
+		} else {
+			cv.Callables["fn:FmtA"] = "conv.FmtA"
+		}
+	}
 	nv := o.NValues
 	if nv == 0 {
 		nv = 40
@@ -251,8 +268,12 @@ func DefaultCase(r *rand.Rand, name string, o DefaultOpts) *Case {
 	convFlags := vref.Flags{SkipCopy: skipCopyDefault}
 	cv.Spec = &vref.Spec{Seed: o.Seed, NValues: nv, Monitors: []string{"default"}, Conv: convFlags,
 		Funcs: []*vref.FuncSpec{{Key: "fn:NewT", Kind: "default", Roles: roles}}}
+	if fnMapped {
+		cv.Spec.Funcs = append(cv.Spec.Funcs, &vref.FuncSpec{Key: "fn:FmtA", Kind: "map", Roles: []string{"source"}})
+	}
 	c.Convs = []*Converter{cv}
 	c.Patterns = []string{"./conv"}
+	c.Feature("fnmapped", fmt.Sprint(fnMapped))
 	c.Feature("shape", fmt.Sprintf("srcptr=%v,tgtptr=%v,fnptr=%v", srcPtr, tgtPtr, fnPtr))
 	c.Feature("fn", fmt.Sprintf("source=%v,ctx=%v,err=%v", fnSource, fnCtx, fnErr))
 	c.Feature("defaultupdate", fmt.Sprint(defUpdate))
@@ -396,4 +417,12 @@ func PointerCase(r *rand.Rand, name string, o DefaultOpts) (*Case, bool) {
 		c.Feature("nojudge", "true")
 	}
 	return c, ok
+}
+
+func defaultFields(fnMapped bool) map[string]vref.FieldSpec {
+	m := map[string]vref.FieldSpec{"Ign": {Ignore: true}, "Ign2": {Ignore: true}}
+	if fnMapped {
+		m["FM"] = vref.FieldSpec{Path: []string{"A"}, Func: "fn:FmtA"}
+	}
+	return m
 }
